@@ -117,11 +117,15 @@ def make(pos, lk, rk, op):
         elif out.kind == "diag":
             lim = 255 if kind in ("imm8", "fcb") else 65535
             width_ok = (0 <= r) and (r <= lim)
-            if "lbla" in (lk, rk) and op in (None, "+"):
+            if "lbla" in (lk, rk):
                 # the statement was rejected, so the address of the label behind it is known only up to the
-                # statement's size (2..5 bytes): rejected rightly if any of those makes the result unrepresentable
-                for extra in (2, 3, 4, 5):
-                    width_ok = width_ok and (r + extra <= lim)
+                # statement's size (1..5 bytes): rejected rightly if any of those makes the result unrepresentable
+                # (or the divisor zero)
+                for extra in (1, 2, 3, 4, 5):
+                    lv2 = (o + 1 + extra) if lt == "LA" else lv
+                    rv2 = (o + 1 + extra) if rt == "LA" else rv
+                    r2 = lv2 if op is None else oexpr(op, lv2, rv2)
+                    width_ok = width_ok and (r2 is not None) and (0 <= r2) and (r2 <= lim)
             ok = not width_ok                            # a representable result must be accepted
         else:
             ok = encodes(kind, m, b, r)
